@@ -1,6 +1,7 @@
 """C10 — handler time-outs are enforced and contained."""
 from __future__ import annotations
 
+from .. import env
 from ..base import Exact, is_sym, zand, zimplies, znot, zor
 from ..events import C, G, L, P
 from ..oracles import Trace
@@ -139,7 +140,69 @@ def t_timeout(ctx):
         ctx.check('C10.no_double_run', r.n == 1, h=r.h)
 
 
-TEMPLATES = {'s1.timeout': t_timeout, 'tree': t_tree}
+def t_timeout_retry(ctx):
+    """The handler is wrapped in @retry with a one-slot semaphore (README: decorated handlers). The first event's time-out T fires at
+    an arbitrary point of the wrapper (slot wait, overload probe, body); anything the wrapper hands to a worker thread takes an
+    arbitrary time x_d. Containment: the later event, whose handler needs the same slot, runs at once and completes normally."""
+    import asyncio
+    helpers = env.helpers
+    T = Exact(ctx.cfg['T'])
+    d1 = ctx.real('d1', 0, 2 * T + Exact('1/10'))
+    x_d = ctx.real('x_d', 0, 2 * T + Exact('1/10'))
+    gap = Exact('1/10')
+    ctx.new_loop(horizon=20)
+    ctx.loop.executor_delay = x_d
+    bus = ctx.bus('A')
+
+    @helpers.retry(wait=0, retries=0, timeout=5, semaphore_limit=1, semaphore_name='C10S', semaphore_scope='global', semaphore_lax=False,
+                   semaphore_timeout=1.0)
+    async def body(h, ev):
+        ctx.rec('BODY', ev=ctx.label(ev), t_enter=ctx.now())
+        await h.sleep(d1)
+        return 'p'
+
+    async def hP(h, ev):
+        return await body(h, ev)
+    ctx.on(bus, P, 'hP', hP)
+    st = {}
+
+    async def main():
+        m = ctx.main
+        p1 = m.dispatch(bus, ctx.ev(P, 'P1', event_timeout=float(T)))
+        await m.wait(p1)
+        await asyncio.sleep(gap)
+        st['t2'] = ctx.now()
+        p2 = m.dispatch(bus, ctx.ev(P, 'P2', event_timeout=10.0))
+        await m.wait(p2)
+        await bus.wait_until_idle()
+        st['idle'] = True
+    ctx.run(main())
+    tr = Trace(ctx.records)
+    evs = ctx.events
+    s1 = ctx.snap(evs['P1'])
+    ctx.check('C10.event_completes', s1['status'] == 'completed' and s1['signal'] is True, ev='P1', got=(s1['status'], s1['signal']))
+    r1 = [r for r in s1['results'] if r[0] == 'hP']
+    e1 = tr.entries('A', 'P1', 'hP')
+    if len(e1) == 1 and tr.exit_of(e1[0].h) is not None and tr.exit_of(e1[0].h).outcome == 'cancelled':
+        ctx.witness('timeout fired')
+        ctx.check('C10.cancelled_at_deadline', tr.exit_of(e1[0].h).t == e1[0].t + T)
+        ctx.check('C10.timeout_error', len(r1) == 1 and r1[0][2] == 'error' and r1[0][4] == 'TimeoutError', got=r1)
+    else:
+        ctx.witness('no timeout')
+    if 'P2' in evs:
+        s2 = ctx.snap(evs['P2'])
+        r2 = [r for r in s2['results'] if r[0] == 'hP']
+        b2 = [r for r in tr.recs if r.kind == 'BODY' and r.ev == 'P2']
+        ctx.check('C10.later_events_run', len(b2) == 1 and len(r2) == 1 and r2[0][2] == 'completed' and s2['status'] == 'completed' and s2['signal'] is True,
+                  ev='P2', got=r2, why='the later event did not run normally after the time-out of the first')
+        if len(b2) == 1:
+            # nothing of the first event is left behind: the slot is free, so the later handler's body starts without waiting for it
+            # (only the wrapper's own thread hop, if it has one, may delay it)
+            ctx.check('C10.later_events_run', b2[0].t_enter <= st['t2'] + x_d, ev='P2', why='the later handler had to wait for a slot the timed-out handler never gave back')
+    ctx.check('C10.idle', bool(st.get('idle')), why='main still blocked at the virtual horizon')
+
+
+TEMPLATES = {'s1.timeout': t_timeout, 's1.timeout_retry': t_timeout_retry, 'tree': t_tree}
 
 
 def jobs(tier):
@@ -158,6 +221,7 @@ def jobs(tier):
                 out.append(Job('C10', 's1.timeout', t_timeout, dict(T=T, depth=2, child=child), witnesses=W))
         out.append(Job('C10', 's1.timeout', t_timeout, dict(T='1/4', depth=3, child='await'), witnesses=W, max_paths=6000))
         out.append(Job('C10', 's1.timeout', t_timeout, dict(T='1/4', depth=3, child='ff'), witnesses=W, max_paths=6000))
+    out.append(Job('C10', 's1.timeout_retry', t_timeout_retry, dict(T='1/4'), witnesses=W))
     out += matrix_jobs('C10', 'm2', tier)
     out += matrix_jobs('C10', 'm3', tier)
     from ._common import mk
